@@ -1,12 +1,16 @@
 package main
 
 import (
+	"fmt"
 	"go/ast"
 	"go/types"
 )
 
-// Strings are an uninterpreted sort with equality (enough for map keys and
-// labels). Content-level reasoning (the parser) is added in strmodel.go.
+// Strings are an uninterpreted sort Str with three observers: str.len,
+// str.at (byte at an index) and str.sub (substring). Literals are distinct
+// constants with known length and bytes. This is enough for totality
+// (index / slice bounds), equality with literals and map keys; the contents of
+// substrings are not related to their source (not needed by the contracts).
 
 func (x *Exec) strEq(st *State, a, b Term) Term { return tEq(a, b) }
 
@@ -15,18 +19,63 @@ func (x *Exec) strLen(s Term) Term {
 	return app(x.vc.idx(), "str.len", s)
 }
 
+func (x *Exec) byteSort() string {
+	if x.vc.mode == "bv" {
+		return bvSort(8)
+	}
+	return "Int"
+}
+
+func (x *Exec) strAt(s, i Term) Term {
+	x.vc.declareFun("str.at", []string{"Str", x.vc.idx()}, x.byteSort())
+	return app(x.byteSort(), "str.at", s, i)
+}
+
+func (x *Exec) strSub(s, lo, hi Term) Term {
+	x.vc.declareFun("str.sub", []string{"Str", x.vc.idx(), x.vc.idx()}, "Str")
+	return app("Str", "str.sub", s, lo, hi)
+}
+
+// strFacts: facts true of every string value (length non-negative, bounded).
+func (x *Exec) strFacts(st *State, s Term) {
+	l := x.strLen(s)
+	st.assume(x.vc.ile(x.vc.idxLit(0), l))
+	st.assume(x.vc.ile(l, x.vc.idxLit(1<<40)))
+}
+
 func (x *Exec) strIndex(st *State, e *ast.IndexExpr) Value {
-	x.unsup(e.Pos(), "string indexing")
-	return Value{}
+	s := x.expr(st, e.X)
+	i := x.toIdx(st, e.Index)
+	x.strFacts(st, s.T)
+	x.oblige(st, "bounds", tAnd(x.vc.ile(x.vc.idxLit(0), i), x.vc.ilt(i, x.strLen(s.T))), e.Pos(), "index "+types.ExprString(e))
+	b := x.strAt(s.T, i)
+	if x.vc.mode == "int" {
+		st.assume(tAnd(app("Bool", "<=", mathInt(0), b), app("Bool", "<=", b, mathInt(255))))
+	}
+	return Value{T: b, Ty: types.Typ[types.Uint8]}
 }
 
 func (x *Exec) strSlice(st *State, e *ast.SliceExpr) Value {
-	x.unsup(e.Pos(), "string slicing")
-	return Value{}
+	s := x.expr(st, e.X)
+	x.strFacts(st, s.T)
+	lo := x.vc.idxLit(0)
+	if e.Low != nil {
+		lo = x.toIdx(st, e.Low)
+	}
+	hi := x.strLen(s.T)
+	if e.High != nil {
+		hi = x.toIdx(st, e.High)
+	}
+	x.oblige(st, "bounds", tAnd(x.vc.ile(x.vc.idxLit(0), lo), x.vc.ile(lo, hi), x.vc.ile(hi, x.strLen(s.T))), e.Pos(), "slice "+types.ExprString(e))
+	r := x.strSub(s.T, lo, hi)
+	st.assume(tEq(x.strLen(r), x.vc.isub(hi, lo)))
+	return Value{T: r, Ty: s.Ty}
 }
 
 func (x *Exec) strConcat(st *State, a, b Value) Value {
-	return Value{T: x.vc.fresh("str", "Str"), Ty: a.Ty}
+	r := x.vc.fresh("str", "Str")
+	st.assume(tEq(x.strLen(r), x.vc.iadd(x.strLen(a.T), x.strLen(b.T))))
+	return Value{T: r, Ty: a.Ty}
 }
 
 func (x *Exec) strConversion(st *State, c *ast.CallExpr, v Value, to types.Type) Value {
@@ -35,13 +84,41 @@ func (x *Exec) strConversion(st *State, c *ast.CallExpr, v Value, to types.Type)
 }
 
 func (x *Exec) specStrIndex(e *SpecEnv, base Value, i Term) Value {
-	e.fail("string indexing in spec")
-	return Value{}
+	return Value{T: x.strAt(base.T, i), Ty: types.Typ[types.Uint8]}
 }
 
 func (x *Exec) specStrSlice(e *SpecEnv, base Value, lo, hi *Term) Value {
-	e.fail("string slicing in spec")
-	return Value{}
+	l := x.vc.idxLit(0)
+	if lo != nil {
+		l = *lo
+	}
+	h := x.strLen(base.T)
+	if hi != nil {
+		h = *hi
+	}
+	return Value{T: x.strSub(base.T, l, h), Ty: base.Ty}
+}
+
+// literalFacts: length and bytes of the string literals used so far.
+func (vc *VC) literalFacts() []Term {
+	var out []Term
+	if len(vc.strLits) == 0 || !vc.funSet["str.len"] {
+		return nil
+	}
+	for s, t := range vc.strLits {
+		out = append(out, tEq(app(vc.idx(), "str.len", t), vc.idxLit(int64(len(s)))))
+		if vc.funSet["str.at"] && len(s) <= 8 {
+			bs := "Int"
+			if vc.mode == "bv" {
+				bs = bvSort(8)
+			}
+			for i := 0; i < len(s); i++ {
+				out = append(out, tEq(app(bs, "str.at", t, vc.idxLit(int64(i))), intLit(vc.mode, IntInfo{8, false}, bigInt(int64(s[i])))))
+			}
+		}
+	}
+	_ = fmt.Sprint
+	return out
 }
 
 func (x *Exec) stdCall(st *State, c *ast.CallExpr, fn *types.Func) ([]Value, bool) {
